@@ -81,3 +81,14 @@ def _(margins):
     ensures("is_an_upper_bound", all(result[k] >= m[k] for m in margins for k in [1, 2, 3, 4]))
     ensures("is_attained", all(any(result[k] == m[k] for m in margins) for k in [1, 2, 3, 4]))
     ensures("is_a_margins_record", result[0] == "Margins")
+
+
+# ... and what it is the larger OF: the SUM of the cumulative margins and EACH non-cumulative one (trace obligations)
+@contract("pandora.margins.margins.GlobalMargins.global_margins", props=["C20"])
+def _(self):
+    types(self="opaque")
+    option(glue=True)
+    ensures("max_of_sum_and_each", ncalls("max_margins") == 1, ncalls("sum") == 1,
+            call_arg_mentions("max_margins", 0, 0, "_cumulatives.sum()"),
+            call_arg_mentions("max_margins", 0, 0, "non_cumulatives.values()"),
+            not call_arg_mentions("max_margins", 0, 0, "_non_cumulatives.sum()"))
